@@ -219,6 +219,15 @@ def _check(prop, tier, seed, py, modname, plan, scratch, ev_path, t0):
             counts[k] = counts.get(k, 0) + v
         if r.get('samples'):
             samples.append({'slice': sid, 'path': r['samples'][-1]})
+        for fkey, krec in (r.get('known_hits') or {}).items():
+            # a recorded finding was met on some path: confirm natively before printing KNOWN-FINDING
+            ok_n, doc = _replay(py, t, {'fails': [krec]}, scratch, twin=False)
+            nrec = (doc.get('native') or {}).get('rec') or {}
+            if nrec.get('known') == fkey:
+                what = next((k.get('what') for k in known if k.get('key') == fkey), krec.get('why'))
+                known_hits.append((fkey, '%s (e.g. %s)' % (what, json.dumps({k: v for k, v in nrec.items() if k in ('text', 'kinds', 'why')})[:200])))
+            else:
+                harness_errors.append('slice %s: recorded finding %s met under tracing did not reproduce natively' % (sid, fkey))
         if st == 'confirmed':
             pass
         elif st == 'refuted':
